@@ -19,6 +19,14 @@ Theorem c04_exported_refines_spec : forall lim so name0 ops,
 Proof. exact snapshot_refines. Qed.
 Print Assumptions c04_exported_refines_spec.
 
+(** Delivery: the span processors' OnEnd receives the span exactly once if the
+    program ends it (plain End or End while panicking), never otherwise, and
+    receives exactly the specification's view, taken at the first End. *)
+Theorem c04_exported_once : forall lim so name0 ops,
+  m_exported (run_model lim so name0 ops) = exports_spec lim so name0 ops.
+Proof. exact exports_refine. Qed.
+Print Assumptions c04_exported_once.
+
 (** Documentation of the repaired defect: the snapshot as it was before the
     fix did not report exact drop counts when the event / link limit is 0. *)
 Theorem c04_snapshot_before_fix_refuted :
@@ -155,6 +163,14 @@ Example ex_run :
      x_links := [{| l_ctx := 2; l_ts := true; l_attrs := []; l_dropped := 0 |}]; x_lkdropped := 2;
      x_kind := 1; x_start := 11; x_end := 77 |} /\
   snapshot (run_model ex_lim ex_so (str "n") ex_ops) = run_spec ex_lim ex_so (str "n") ex_ops.
+Proof. vm_compute. split; reflexivity. Qed.
+Example ex_panic_end :
+  exports_spec ex_lim no_start (str "n")
+    [OSetAttrs [(str "a", VInt 1)]; OEndPanic (str ".string") (str "boom") true 7; OAddEvent (str "late") 1 []; OEnd 9] =
+  [{| x_name := str "n"; x_status := (0, []); x_attrs := [(str "a", VInt 1)]; x_dropped := 0;
+      x_events := [{| e_name := str "exception"; e_time := 0; e_attrs := [(str "exception.type", VStr (str ".string"))]; e_dropped := 2 |}];
+      x_evdropped := 0; x_links := []; x_lkdropped := 0; x_kind := 1; x_start := 0; x_end := 7 |}] /\
+  exports_spec ex_lim no_start (str "n") [OSetName (str "x")] = [].
 Proof. vm_compute. split; reflexivity. Qed.
 Example ex_limit0 :
   x_evdropped (snapshot (run_model lim_ev0 no_start (str "s") [OAddEvent (str "e") 1 []; OAddEvent (str "e") 2 []; OEnd 0])) = 2%nat /\
